@@ -15,7 +15,8 @@ theorems for *every* interleaving of their events:
   writers (`seq` assigned and memtable picked under the mutex and linked into the wait list; log
   append; entry-by-entry skiplist inserts; return as head of the wait list), the flush thread
   (rotate `mem → imm` and link; pass the wait list; install the version; clear `imm`), readers
-  (snapshot of `mem`, `imm`, version and a timestamp under the mutex; lookups afterwards).
+  (clone of the tree version — a step of its own, `rTree`, which the code makes inside the critical
+  section in which it takes `mem`, `imm` and a timestamp, `rSnap`; lookups afterwards).
   `completed = true`: the timestamp is `visible`, the number of the last writer that left the
   wait list (the repaired store, fixes/d6-read-at-last-completed-seq.diff); `completed = false`:
   the last *assigned* number (the store as found, D-6).
@@ -37,23 +38,24 @@ section conc
 open Blue.KvsConc
 
 /-- **batches become visible atomically** (repaired): in every reachable state, every snapshot a
-    reader holds sees, of every write that has begun, the whole batch or nothing — at every later
-    moment too (`snapshot_stable`) -/
+    reader holds and that is clean (tree version and mem / imm taken with no `imm := none` in between:
+    `snapshot_tree_consistent`; the driver checks it on every recorded trace) sees, of every write
+    that has begun, the whole batch or nothing — at every later moment too (`snapshot_stable`) -/
 theorem batch_atomic {seq0 mem0 : Nat} {evs : List Ev} {s : St}
     (hrun : run (init true seq0 mem0) evs = some s)
-    (r : Nat × Snap) (hr : r ∈ s.readers) (w : Writer) (hw : w ∈ s.writers) :
+    (r : Nat × Snap) (hr : r ∈ s.readers) (hclean : r.2.clean = true) (w : Writer) (hw : w ∈ s.writers) :
     (∀ kv ∈ w.batch, (⟨kv.1, w.seq, kv.2⟩ : Entry) ∈ view s r.2) ∨ (∀ e ∈ view s r.2, e.seq ≠ w.seq) :=
-  Blue.KvsConc.batch_atomic hrun r hr w hw
+  Blue.KvsConc.batch_atomic hrun r hr hclean w hw
 
 /-- non-vacuity: a run with a rollover in the middle of a two-key batch and snapshots before,
     between the two inserts, and after; the middle snapshot sees nothing of the batch, the last
     sees both keys -/
 example :
-    (run (init true 2 1) [.rSnap 0 2 1 false, .wBegin 3 1 [(1, some 7), (2, some 8)], .wLog 3, .wIns 3 0,
-        .fRotate 3 1, .rSnap 1 2 3 true, .wIns 3 1, .wFin 3, .fHead 3, .rSnap 2 3 3 true, .fInstall 1,
-        .fClear 1]).map
-      (fun s => s.readers.map (fun r => (r.1, value s r.2 1, value s r.2 2)))
-      = some [(2, some 7, some 8), (1, none, none), (0, none, none)] := by decide
+    (run (init true 2 1) [.rTree 0 0, .rSnap 0 2 1 false, .wBegin 3 1 [(1, some 7), (2, some 8)], .wLog 3,
+        .wIns 3 0, .fRotate 3 1, .rTree 1 0, .rSnap 1 2 3 true, .wIns 3 1, .wFin 3, .fHead 3, .rTree 2 0,
+        .rSnap 2 3 3 true, .fInstall 1 1, .fClear 1]).map
+      (fun s => s.readers.map (fun r => (r.1, r.2.clean, value s r.2 1, value s r.2 2)))
+      = some [(2, true, some 7, some 8), (1, true, none, none), (0, true, none, none)] := by decide
 
 /-- **an open cursor is a stable snapshot** (repaired): no later event — in particular no writer in
     flight when the snapshot was taken — changes what the snapshot sees -/
@@ -67,14 +69,15 @@ theorem reachable_inv {c : Bool} {seq0 mem0 : Nat} {evs : List Ev} {s : St}
   Blue.KvsConc.inv_run evs (Blue.KvsConc.inv_init c seq0 mem0) hrun
 
 /-- **no stale read** (both read policies, all interleavings incl. rollover and flush): a reader
-    whose timestamp covers a write that has returned finds that write or a newer one for each of
-    its keys, whenever it looks -/
+    with a clean snapshot whose timestamp covers a write that has returned finds that write or a
+    newer one for each of its keys, whenever it looks -/
 theorem no_stale_read {c : Bool} {seq0 mem0 : Nat} {evs : List Ev} {s : St}
     (hrun : run (init c seq0 mem0) evs = some s)
-    (r : Nat × Snap) (hr : r ∈ s.readers) (w : Writer) (hw : w ∈ s.writers) (hf : w.finished = true)
+    (r : Nat × Snap) (hr : r ∈ s.readers) (hclean : r.2.clean = true)
+    (w : Writer) (hw : w ∈ s.writers) (hf : w.finished = true)
     (hcov : w.seq ≤ r.2.ts) (k : Nat) (v : Option Nat) (hkv : (k, v) ∈ w.batch) :
     ∃ e, lookup s r.2 k = some e ∧ w.seq ≤ e.seq :=
-  Blue.KvsConc.no_stale_read hrun r hr w hw hf hcov k v hkv
+  Blue.KvsConc.no_stale_read hrun r hr hclean w hw hf hcov k v hkv
 
 /-- … and a snapshot taken after the write returned has such a timestamp -/
 theorem snapshot_after_return_covers {c : Bool} {seq0 mem0 : Nat} {evs : List Ev} {s s' : St}
@@ -83,8 +86,8 @@ theorem snapshot_after_return_covers {c : Bool} {seq0 mem0 : Nat} {evs : List Ev
     (rid ts mem : Nat) (imm : Bool) (hs : step s (.rSnap rid ts mem imm) = some s') : w.seq ≤ ts :=
   Blue.KvsConc.snapshot_after_return_covers hrun w hw hf rid ts mem imm hs
 
-example : ∃ s, run (init true 2 1) [.wBegin 3 1 [(1, some 7)], .wLog 3, .wIns 3 0, .wFin 3, .rSnap 0 3 1 false] = some s
-    ∧ (s.readers.map (fun r => value s r.2 1)) = [some 7] := by decide
+example : ∃ s, run (init true 2 1) [.wBegin 3 1 [(1, some 7)], .wLog 3, .wIns 3 0, .wFin 3, .rTree 0 0,
+    .rSnap 0 3 1 false] = some s ∧ (s.readers.map (fun r => (r.2.clean, value s r.2 1))) = [(true, some 7)] := by decide
 
 /-- **never a value that was not written, never one from the future**: what a lookup returns is an
     entry of the batch of the write with that sequence number, for the key asked, and that write
@@ -126,7 +129,65 @@ theorem insert_only_into_open_table {c : Bool} {seq0 mem0 : Nat} (hm : mem0 < se
   Blue.KvsConc.insert_only_into_open_table hm hrun seq idx w hf hs
 
 example : ∃ s, run (init true 2 1) [.wBegin 3 1 [(1, some 7)], .wLog 3, .fRotate 3 1, .wIns 3 0, .wFin 3, .fHead 3,
-    .fInstall 1] = some s ∧ s.sealed = true ∧ s.flushed = [1] ∧ s.imm = some 1 := by decide
+    .fInstall 1 1] = some s ∧ s.sealed = true ∧ s.flushed = [1] ∧ s.imm = some 1 := by decide
+
+/-! ### the tree version is taken in a step of its own -/
+
+/-- the steps that may fall between a reader's `rTree` and its `rSnap` without harm: all but
+    `fClear` and the reader's own `rTree` / `rSnap` -/
+example : keepsTree 7 (.fClear 1) = false ∧ keepsTree 7 (.fInstall 1 2) = true ∧ keepsTree 7 (.wFin 3) = true
+    ∧ keepsTree 7 (.rSnap 8 0 0 false) = true ∧ keepsTree 7 (.rSnap 7 0 0 false) = false := by decide
+
+/-- **`snapshot_tree_consistent`**: if no `imm := none` step of the flush thread (nor another
+    snapshot of the same reader) falls between a reader's cloning the tree version and its taking
+    mem / imm / timestamp — as is the case whenever the clone is made while the store mutex is held
+    — the three-part snapshot is clean and complete: every entry of every write that has returned
+    and that the timestamp covers is in mem ∪ imm ∪ tree.  This trace condition is the hypothesis
+    `clean` of `batch_atomic` and `no_stale_read`; the driver checks it on every recorded trace -/
+theorem snapshot_tree_consistent {c : Bool} {seq0 mem0 : Nat} {pre mid : List Ev} {rid vid ts mem : Nat}
+    {imm : Bool} {s : St}
+    (hrun : run (init c seq0 mem0) (pre ++ (Ev.rTree rid vid :: mid) ++ [Ev.rSnap rid ts mem imm]) = some s)
+    (hmid : ∀ e ∈ mid, keepsTree rid e = true) :
+    ∃ sn, s.readers.head? = some (rid, sn) ∧ sn.clean = true ∧ sn.ts = ts ∧
+      ∀ w ∈ s.writers, w.finished = true → w.seq ≤ ts →
+        ∀ kv ∈ w.batch, (⟨kv.1, w.seq, kv.2⟩ : Entry) ∈ view s sn :=
+  Blue.KvsConc.snapshot_tree_consistent hrun hmid
+
+/-- non-vacuity: version install and a writer's whole life between the two steps of the reader -/
+example : ∃ s, run (init true 2 1) ([.wBegin 3 1 [(1, some 7)], .wLog 3, .wIns 3 0, .wFin 3, .fRotate 3 1, .fHead 3]
+      ++ (Ev.rTree 0 0 :: [.fInstall 1 1, .wBegin 5 3 [(2, some 9)], .wLog 5, .wIns 5 0, .wFin 5])
+      ++ [Ev.rSnap 0 5 3 true]) = some s
+    ∧ s.readers.map (fun r => (r.2.clean, value s r.2 1, value s r.2 2)) = [(true, some 7, some 9)] := by decide
+
+/-- … in the flag form: a clean snapshot, in any reachable state, holds every covered returned write -/
+theorem snapshot_complete_of_clean {c : Bool} {seq0 mem0 : Nat} {evs : List Ev} {s : St}
+    (hrun : run (init c seq0 mem0) evs = some s) (r : Nat × Snap) (hr : r ∈ s.readers)
+    (hclean : r.2.clean = true) :
+    ∀ w ∈ s.writers, w.finished = true → w.seq ≤ r.2.ts →
+      ∀ kv ∈ w.batch, (⟨kv.1, w.seq, kv.2⟩ : Entry) ∈ view s r.2 :=
+  Blue.KvsConc.snapshot_complete_of_clean hrun r hr hclean
+
+/-- **`stale_read_as_mutated`**: what a store that clones its tree version BEFORE taking the store
+    mutex admits — `rTree` (old version), the flush installs the new version and clears `imm`,
+    `rSnap`: the put of key 1 returned long before, the timestamp covers it, the reader finds
+    nothing; its snapshot is not clean (the harness reproduces this run on such a store with a
+    directed schedule) -/
+theorem stale_read_as_mutated :
+    (run (init true 2 1) [.wBegin 3 1 [(1, some 7)], .wLog 3, .wIns 3 0, .wFin 3, .fRotate 3 1, .fHead 3,
+        .rTree 0 0, .fInstall 1 1, .fClear 1, .rSnap 0 3 3 false]).map
+      (fun s => s.readers.map (fun r => (r.2.ts, r.2.tbls, r.2.clean, value s r.2 1)))
+      = some [(3, [3], false, none)] :=
+  Blue.KvsConc.stale_read_as_mutated
+
+/-- the same flush with the clone inside the critical section, at each of its three possible
+    places, finds the value -/
+theorem same_schedule_clone_under_mutex :
+    (run (init true 2 1) [.wBegin 3 1 [(1, some 7)], .wLog 3, .wIns 3 0, .wFin 3, .fRotate 3 1, .fHead 3,
+        .rTree 0 0, .rSnap 0 3 3 true, .fInstall 1 1, .rTree 1 1, .rSnap 1 3 3 true, .fClear 1,
+        .rTree 2 1, .rSnap 2 3 3 false]).map
+      (fun s => s.readers.map (fun r => (r.1, r.2.tbls, r.2.clean, value s r.2 1)))
+      = some [(2, [3, 1], true, some 7), (1, [3, 1, 1], true, some 7), (0, [3, 1], true, some 7)] :=
+  Blue.KvsConc.same_schedule_clone_under_mutex
 
 end conc
 
@@ -138,25 +199,28 @@ open Blue.KvsConc
     batch sees the first entry and not the second (joined model; the harness reproduces this run
     on the real store with a directed schedule) -/
 theorem batch_atomic_fails_as_found :
-    (run (init false 2 1) [.wBegin 3 1 [(1, some 7), (2, some 7)], .wLog 3, .wIns 3 0, .rSnap 0 3 1 false]).map
-      (fun s => (value s ⟨3, [1]⟩ 1, value s ⟨3, [1]⟩ 2)) = some (some 7, none) :=
+    (run (init false 2 1) [.wBegin 3 1 [(1, some 7), (2, some 7)], .wLog 3, .wIns 3 0, .rTree 0 0,
+        .rSnap 0 3 1 false]).map
+      (fun s => (value s ⟨3, [1], true⟩ 1, value s ⟨3, [1], true⟩ 2)) = some (some 7, none) :=
   Blue.KvsConc.batch_atomic_fails_as_found
 
 /-- … and an open cursor is not a stable snapshot as found: a writer in flight when the snapshot is
     taken becomes visible to it when it completes -/
 theorem snapshot_unstable_as_found :
-    (run (init false 2 1) [.wBegin 3 1 [(1, some 7)], .wLog 3, .rSnap 0 3 1 false]).map
-      (fun s => value s ⟨3, [1]⟩ 1) = some none ∧
-    (run (init false 2 1) [.wBegin 3 1 [(1, some 7)], .wLog 3, .rSnap 0 3 1 false, .wIns 3 0, .wFin 3]).map
-      (fun s => value s ⟨3, [1]⟩ 1) = some (some 7) :=
+    (run (init false 2 1) [.wBegin 3 1 [(1, some 7)], .wLog 3, .rTree 0 0, .rSnap 0 3 1 false]).map
+      (fun s => value s ⟨3, [1], true⟩ 1) = some none ∧
+    (run (init false 2 1) [.wBegin 3 1 [(1, some 7)], .wLog 3, .rTree 0 0, .rSnap 0 3 1 false, .wIns 3 0,
+        .wFin 3]).map
+      (fun s => value s ⟨3, [1], true⟩ 1) = some (some 7) :=
   Blue.KvsConc.snapshot_unstable_as_found
 
 /-- the same schedule on the repaired store -/
 theorem repaired_same_schedule :
-    run (init true 2 1) [.wBegin 3 1 [(1, some 7), (2, some 7)], .wLog 3, .wIns 3 0, .rSnap 0 3 1 false] = none ∧
-    (run (init true 2 1) [.wBegin 3 1 [(1, some 7), (2, some 7)], .wLog 3, .wIns 3 0, .rSnap 0 2 1 false,
-        .wIns 3 1, .wFin 3]).map
-      (fun s => (value s ⟨2, [1]⟩ 1, value s ⟨2, [1]⟩ 2, readTs s)) = some (none, none, 3) :=
+    run (init true 2 1) [.wBegin 3 1 [(1, some 7), (2, some 7)], .wLog 3, .wIns 3 0, .rTree 0 0,
+        .rSnap 0 3 1 false] = none ∧
+    (run (init true 2 1) [.wBegin 3 1 [(1, some 7), (2, some 7)], .wLog 3, .wIns 3 0, .rTree 0 0,
+        .rSnap 0 2 1 false, .wIns 3 1, .wFin 3]).map
+      (fun s => (value s ⟨2, [1], true⟩ 1, value s ⟨2, [1], true⟩ 2, readTs s)) = some (none, none, 3) :=
   Blue.KvsConc.repaired_same_schedule
 
 end asfound
@@ -234,6 +298,10 @@ end Blue.Props.C06
 #print axioms Blue.Props.C06.snapshot_covers_all
 #print axioms Blue.Props.C06.flushed_table_complete
 #print axioms Blue.Props.C06.insert_only_into_open_table
+#print axioms Blue.Props.C06.snapshot_tree_consistent
+#print axioms Blue.Props.C06.snapshot_complete_of_clean
+#print axioms Blue.Props.C06.stale_read_as_mutated
+#print axioms Blue.Props.C06.same_schedule_clone_under_mutex
 #print axioms Blue.Props.C06.batch_atomic_fails_as_found
 #print axioms Blue.Props.C06.snapshot_unstable_as_found
 #print axioms Blue.Props.C06.repaired_same_schedule
